@@ -224,6 +224,64 @@ def pairs():
                ('trans/nested', [('Conjunction', [('Similarity', a, b)]), ('Conjunction', [('Similarity', b, a)]), ('Conjunction', [('Similarity', a, c)])])]
     return out, triples
 
+def gen_pairs(n, seed, depth=3):
+    """pseudo-random SHAPES (names / numbers stay symbolic): (t, permuted t) and (t, permuted-then-mutated t).  Deterministic per seed."""
+    import random, zlib
+    rng = random.Random(zlib.crc32(('c06-%s' % seed).encode()))
+    ATOMK = ['Word', 'VariableIndependent', 'VariableDependent', 'VariableQuery', 'Operator']
+    BIN = ['DifferenceExtension', 'DifferenceIntension', 'Inheritance', 'Implication', 'ImplicationPredictive', 'ImplicationConcurrent', 'ImplicationRetrospective', 'EquivalencePredictive'] + list(SYMM)
+    def atom():
+        r = rng.random()
+        if r < 0.08: return ('Placeholder',)
+        if r < 0.16: return ('Interval', ('symint', rng.randrange(2)))
+        return (rng.choice(ATOMK), N(rng.randrange(3)))
+    def term(d):
+        if d == 0 or rng.random() < 0.25: return atom()
+        c = rng.choice(['set', 'set', 'vec', 'image', 'neg', 'bin', 'bin', 'symm'])
+        if c == 'set': return (rng.choice(list(SETS)), [term(d - 1) for _ in range(rng.randrange(1, 4))])
+        if c == 'vec': return (rng.choice(list(TERM_VECS)), [term(d - 1) for _ in range(rng.randrange(1, 4))])
+        if c == 'image':
+            cs = [term(d - 1) for _ in range(rng.randrange(1, 3))]; return (rng.choice(list(TERM_IMAGES)), rng.randrange(len(cs) + 1), cs)
+        if c == 'neg': return ('Negation', term(d - 1))
+        if c == 'symm': return (rng.choice(list(SYMM)), term(d - 1), term(d - 1))
+        return (rng.choice(BIN), term(d - 1), term(d - 1))
+    def permute(t):
+        k = t[0]
+        if k in SETS:
+            cs = [permute(x) for x in t[1]]
+            if rng.random() < 0.3: cs.append(permute(rng.choice(t[1])))          # a duplicate changes nothing
+            rng.shuffle(cs); return (k, cs)
+        if k in TERM_VECS: return (k, [permute(x) for x in t[1]])
+        if k in TERM_IMAGES: return (k, t[1], [permute(x) for x in t[2]])
+        if k == 'Negation': return (k, permute(t[1]))
+        if k in SYMM: return (k, permute(t[2]), permute(t[1])) if rng.random() < 0.5 else (k, permute(t[1]), permute(t[2]))
+        if len(t) == 3 and isinstance(t[1], tuple) and isinstance(t[2], tuple) and k not in TERM_ATOMS: return (k, permute(t[1]), permute(t[2]))
+        return t
+    def mutate(t):
+        """one local change somewhere in the tree"""
+        k = t[0]
+        kids = [i for i, x in enumerate(t) if isinstance(x, tuple) and i > 0 and k not in TERM_ATOMS and k != 'Interval'] + ([('L', j) for j in range(len(t[-1]))] if isinstance(t[-1], list) else [])
+        if kids and rng.random() < 0.6:
+            w = rng.choice(kids)
+            if isinstance(w, tuple):
+                cs = list(t[-1]); cs[w[1]] = mutate(cs[w[1]]); return t[:-1] + (cs,)
+            return t[:w] + (mutate(t[w]),) + t[w + 1:]
+        if k in TERM_ATOMS: return (rng.choice([x for x in ATOMK if x != k]), t[1]) if rng.random() < 0.5 else (k, N(rng.randrange(3)))
+        if k == 'Placeholder': return ('Word', N(0))
+        if k == 'Interval': return ('Interval', ('symint', 1 - t[1][1]))
+        if k in SETS: return (rng.choice([x for x in SETS if x != k]), t[1]) if rng.random() < 0.5 else (k, t[1] + [atom()])
+        if k in TERM_VECS: return (k, t[1][::-1]) if len(t[1]) > 1 and rng.random() < 0.5 else (rng.choice([x for x in TERM_VECS if x != k]), t[1])
+        if k in TERM_IMAGES: return (k, (t[1] + 1) % (len(t[2]) + 1), t[2]) if rng.random() < 0.6 else (rng.choice([x for x in TERM_IMAGES if x != k]), t[1], t[2])
+        if k == 'Negation': return t[1]
+        if k in SYMM: return (rng.choice([x for x in SYMM if x != k]), t[1], t[2])
+        return (k, t[2], t[1]) if rng.random() < 0.5 else (rng.choice([x for x in BIN if x != k]), t[1], t[2])
+    out = []
+    for i in range(n):
+        t = term(depth)
+        out.append(('gen/%d/perm' % i, [t, permute(t)]))
+        out.append(('gen/%d/mut' % i, [t, mutate(permute(t))]))
+    return out
+
 def run(pid, tier, seed):
     from framework import Runner, Query
     R = Runner(pid, tier, seed); R.setup()
@@ -235,6 +293,9 @@ def run(pid, tier, seed):
     plist = [dict(name=nm, specs=sp, mode=mode) for nm, sp in ps]
     if mode == 'eq': plist += [dict(name=nm, specs=sp, mode=mode) for nm, sp in triples]
     R.run_query(Query('pairs', 'c06', 'path', plist, '%d term pairs/triples, all names/numbers symbolic' % len(plist)), confirm, key_of)
+    g = gen_pairs(400 if tier == 'quick' else 20000, seed)
+    R.run_query(Query('generated', 'c06', 'path', [dict(name=nm, specs=sp, mode=mode) for nm, sp in g],
+                      '%d generated shape pairs (depth <= 3, <= 3 children; t vs a reordering of t, and vs a reordering with one local change), leaves symbolic; shapes drawn deterministically from VERIF_SEED=%s' % (len(g), seed)), confirm, key_of)
     return R.finish(rule='one state = one path of == (and Hash) over a pair with symbolic leaves; obligations are decided by z3 under the path condition', trusted=['rustc MIR', 'mirsym + std models (validated per path)', 'z3 (uninterpreted-function model of the hasher)'])
 
 def main(tier, seed): return run('C06', tier, seed)
